@@ -53,6 +53,12 @@ impl<'a> DecisionNNFBuilder<'a> for StandardDecisionNNFBuilder<'a> {
 }
 
 impl<'a> StandardDecisionNNFBuilder<'a> {
+    /// every node currently stored in the unique table (verification hook)
+    #[cfg(rsdd_verif)]
+    pub fn verif_nodes(&self) -> Vec<&'a BddNode<'a>> {
+        self.compute_table.borrow().iter().collect()
+    }
+
     pub fn new(order: VarOrder) -> StandardDecisionNNFBuilder<'a> {
         StandardDecisionNNFBuilder {
             order,
